@@ -426,6 +426,38 @@ def mk_pow(base: Frac, exp: Frac) -> Frac:
     return Frac.atom(("pow", base, exp))
 
 
+def _neg_cond(c):
+    if c is True:
+        return False
+    if c is False:
+        return True
+    if c[0] == "not":
+        return c[1]
+    if c[0] == "cmp":
+        op, d = c[1], c[2]
+        if op == "<":
+            return ("cmp", "<=", -d)
+        if op == "<=":
+            return ("cmp", "<", -d)
+        if op == "==":
+            return ("cmp", "!=", d)
+        if op == "!=":
+            return ("cmp", "==", d)
+    if c[0] == "and":
+        return ("or",) + tuple(_neg_cond(x) for x in c[1:])
+    if c[0] == "or":
+        return ("and",) + tuple(_neg_cond(x) for x in c[1:])
+    return ("not", c)
+
+
+def _canon_polarity(cond):
+    """(cond', swapped): one representative of {c, not c}: strict / equality comparisons, conjunctions, un-negated atoms"""
+    if isinstance(cond, tuple):
+        if cond[0] == "not" or (cond[0] == "cmp" and cond[1] in ("<=", "!=")) or cond[0] == "or":
+            return _neg_cond(cond), True
+    return cond, False
+
+
 def mk_ite(cond, a: Frac, b: Frac) -> Frac:
     if a == b or a.same(b):
         return a
@@ -433,6 +465,11 @@ def mk_ite(cond, a: Frac, b: Frac) -> Frac:
         return a
     if cond is False:
         return b
+    cond, swapped = _canon_polarity(cond)
+    if swapped:
+        a, b = b, a
+    if isinstance(cond, tuple) and cond[0] == "and":
+        cond = ("and",) + tuple(sorted(set(cond[1:]), key=repr))
     # clamp idioms:  (0 if x < 0 else x)  ==  max(x, 0)   ;   (x if x > 0 else 0) == max(x, 0)
     if isinstance(cond, tuple) and cond[0] == "cmp" and cond[1] in ("<", "<="):
         d = cond[2]
